@@ -8,6 +8,26 @@ use crate::rng::Fnv;
 use crate::world::lex;
 use std::collections::{BTreeMap, BTreeSet, HashSet};
 
+/// hasher for sets of values that are hashes already. `RandomState` would draw its keys from the
+/// host's randomness, and under Miri (isolation off) that makes the number of executed basic
+/// blocks - and with it every later scheduling decision - differ from run to run.
+#[derive(Default, Clone, Copy)]
+pub struct IdentityHasher(u64);
+impl std::hash::Hasher for IdentityHasher {
+    fn finish(&self) -> u64 {
+        self.0
+    }
+    fn write(&mut self, bytes: &[u8]) {
+        for &b in bytes {
+            self.0 = (self.0 << 8) | b as u64;
+        }
+    }
+    fn write_u64(&mut self, v: u64) {
+        self.0 = v;
+    }
+}
+pub type U64Set = HashSet<u64, std::hash::BuildHasherDefault<IdentityHasher>>;
+
 #[derive(Clone, Debug, Default)]
 pub struct Stats {
     pub runs: u64,
@@ -27,11 +47,14 @@ pub struct Stats {
     /// cells (state, incoming, outcome) of the abstract reassembler that were hit
     pub cells: BTreeSet<(u8, u8, u8)>,
     /// hashes of abstract histories (sequence of (incoming class, outcome class) per run)
-    pub histories: HashSet<u64>,
+    pub histories: U64Set,
     /// hashes of full event logs per run index (determinism self-test only)
     pub log_hashes: Vec<(u64, u64)>,
     pub keep_log_hashes: bool,
     pub samples: Vec<String>,
+    /// C17 concurrent shape: hashes of the observed interleavings (the order, at line granularity,
+    /// in which the threads' parse calls were started), std build
+    pub interleavings: U64Set,
 }
 
 impl Stats {
@@ -74,6 +97,7 @@ impl Stats {
         self.cells.extend(other.cells);
         self.marks.extend(other.marks);
         self.histories.extend(other.histories);
+        self.interleavings.extend(other.interleavings);
         self.log_hashes.extend(other.log_hashes);
         if self.samples.len() < 6 {
             for s in other.samples {
